@@ -135,6 +135,19 @@ class Parser(object):
                 line, pos
             )
             fieldnames.add(name)
+            if member.size or member.optional:
+                self._parser_check(
+                    member.kind == model.Kind.FIXED,
+                    "{} field '{}' of dynamic or unlimited type".format(
+                        member.optional and "optional" or "fixed/limited array", name),
+                    line, pos
+                )
+            elif member.is_array:
+                self._parser_check(
+                    member.kind != model.Kind.UNLIMITED,
+                    "array field '{}' of unlimited type".format(name),
+                    line, pos
+                )
             if member.bound:
                 bound, _, __ = next(six.ifilter(lambda m: m[0].name == member.bound, members[:i]), (None, None, None))
                 if bound:
